@@ -23,7 +23,7 @@ EXPLANATION = (
     'ability-decoder instances re-evaluated).'
 )
 ASSUMPTIONS = ["the socket delivers frames to _message_received one at a time (C07/C13)", "match statement first-match semantics"]
-FLOORS = {"C09.R1": 30, "C09.R2": 20, "C09.R3": 6, "C09.R4": 8, "C09.R5": 10, "C09.R6": 1, "C09.R7": 1, "C09.R8": 1, "C09.R9": 1}
+FLOORS = {"C09.R1": 30, "C09.R2": 20, "C09.R3": 6, "C09.R4": 8, "C09.R5": 10, "C09.R6": 1, "C09.R7": 1, "C09.R8": 1, "C09.R9": 1, "C09.R11": 1, "C09.R12": 1}
 
 GEN = {
     AT4_API: dict(cls="AirTouch4", names_req="GroupNamesRequest", names_msg="GroupNamesMessage", zstat_req="GroupStatusRequest", zstat_msg="GroupStatusMessage", c0_wrap=None, zone_cls="At4Zone", ac_cls="At4AirConditioner", hdr="pyairtouch.at4.comms.hdr"),
@@ -61,6 +61,12 @@ def run(ctx):
 
     reuse(ctx, "C09.R8", [c07.r3, c07.r4, c07.r5], "the connection init() waits for is established by the socket's own retry loop, once, with the read loop running (C07.R3-R5)")
     reuse(ctx, "C09.R9", [lambda c: c13.r1(c, "C13.R1"), lambda c: c13.r2(c, "C13.R2"), lambda c: c13.r3(c, "C13.R3")], "the handshake sees the same frames however the console's bytes are segmented (C13)")
+    from . import c03, c15
+
+    reuse(ctx, "C09.R11", [c03.r15], "every frame the console may interleave (requests echoed back included) is consumed whole by its decoder: a decoder that hands announced bytes back makes the frame 'incomplete', and the reset that follows aborts the handshake (C03.R15)",
+          keep=lambda o: "consumes" in o.construct or o.verdict != "HOLDS")
+    reuse(ctx, "C09.R12", [c15.r5], "init() subscribes to connection changes and to received messages before it opens the socket, unconditionally: the first answer cannot arrive before somebody listens (C15.R5)",
+          keep=lambda o: "init:" in o.construct or o.verdict != "HOLDS")
     reuse(ctx, "C09.R7", [c17.r1], "unknown frame types interleaved with the handshake are consumed whole and skipped (an unconsumed rest is a decode error that resets the connection mid-handshake)")
 
 
